@@ -300,9 +300,9 @@ fn show_full(t: &Raw) -> String {
 fn case_packrat(g: &grammar::Grammar, rng: &mut Rng, completeness: bool) -> Option<(String, String, String, usize)> {
     // a random sentence of grammar.y ...
     let mut syms: Vec<(String, &'static str)> = vec![];
-    let budget = 3 + rng.below(9) as u32;
+    let budget = 1 + rng.below(4) as u32;
     g.generate("term", budget, &mut |n| rng.below(n), &mut syms);
-    if syms.len() > 40 { return None; }
+    if syms.len() > 24 { return None; }
     let mut fresh = 0;
     let mut toks: Vec<(String, String)> = syms.iter().map(|(k, role)| {
         let text = match (k.as_str(), *role) {
@@ -339,6 +339,7 @@ fn case_packrat(g: &grammar::Grammar, rng: &mut Rng, completeness: bool) -> Opti
     let got = show_full(&raw);
     let shown = toks.iter().map(|(k, t)| if t.is_empty() { k.to_lowercase() } else { format!("{}:{}", k.to_lowercase(), t) }).collect::<Vec<_>>().join(" ");
     let size = toks.len();
+    if std::env::var("GRAM_WITNESS_SHOW").is_ok() { eprintln!("{} derivations, raw_ok={raw_ok}: [{shown}]", derivs.len()); }
     if derivs.is_empty() {
         if raw_ok { return Some((format!("tokens [{shown}]"), format!("ACCEPTED by parse_term + error check, raw tree {got}"), "not a sentence of grammar.y (no derivation of `term`)".into(), size)); }
         let mut binders = std::collections::HashSet::new();
@@ -405,6 +406,7 @@ fn main() {
     let mut best: Option<(String, String, String, usize)> = None;
     let mut tried = 0u64;
     let mut panics = 0u64;
+    let mut found_at = 0u64;
     for _ in 0..count {
         tried += 1;
         let snapshot = Rng(rng.0);
@@ -422,6 +424,8 @@ fn main() {
             Err(_) => { panics += 1; rng.next(); }
         }
         if best.as_ref().map_or(false, |b| b.3 <= 4) { break; }
+        // the packrat cases are slow (exhaustive derivation search): once something is found, shrink for a while and stop
+        if target.starts_with("packrat") { if best.is_some() { if found_at == 0 { found_at = tried; } else if tried > found_at + 3000 { break; } } }
     }
     let esc = |s: &str| s.replace('\\', "\\\\").replace('"', "\\\"");
     match best {
